@@ -49,6 +49,11 @@ def gen_cases(rng, tier):
                  'obj': rng.pick([{'a': 1}, {}, None, {'b': [1]}, {'d': datetime.date(2021, 3, 4), 'n': {'m': decimal.Decimal('2.50')}},
                                   {'t': datetime.datetime(2020, 1, 2, 3, 4, 5)}])}
                 for j in range(rng.randint(1, 7))]
+        # rows whose array/object cells are all null, in front of and between rows with values
+        for j in range(len(rows)):
+            if rng.chance(0.35):
+                rows[j]['arr'] = None
+                rows[j]['obj'] = None
         cases.append({'kind': 'objects', 'rows': rows_enc(rows), 'mode': rng.pick(['rewrite', 'update']),
                       'batch': rng.pick([1, 2, 3, 1000]), 'flags': rng.chance(0.5)})
     return cases
